@@ -394,6 +394,46 @@ Section Accept.
     end.
 End Accept.
 
+(* ---- what acceptance by the referee means for the data: exactly once, in order ---- *)
+(* the data bytes of a word item, lowest byte first *)
+Definition word_bytes (w n : N) : list N :=
+  map (fun k => (w / 2 ^ (8 * N.of_nat k)) mod 256) (seq 0 (N.to_nat n)).
+Fixpoint items_bytes (l : list item) : list N :=
+  match l with
+  | [] => []
+  | W w n :: t => word_bytes w n ++ items_bytes t
+  | E :: t => items_bytes t
+  end.
+
+
+Section Delivered.
+  Variables (mps ep sb : N).
+
+  (* the packet the host acknowledges in this cycle, if it does *)
+  Definition acked_pkt (r : ref_state) (i : N) : option (list item) :=
+    match env_phase mps ep sb r i with
+    | Some _ =>
+        if r_to_us ep i && r_out r && negb (i_retry i || negb (i_nseq i =? (r_exp r + 1) mod 2 ^ sb))
+        then match take_pkt mps (r_pend r) with Some (p, _) => Some p | None => None end
+        else None
+    | None => None
+    end.
+
+  (* the packets acknowledged, in order, and the stream items accepted, along a judged trace *)
+  Fixpoint acked_log (r : ref_state) (ios : list (N * N)) : list (list item) :=
+    match ios with
+    | [] => []
+    | (i, o) :: t =>
+        match ref_step mps ep sb r i (unpack_out o) with
+        | Some (r', _) => (match acked_pkt r i with Some p => [p] | None => [] end) ++ acked_log r' t
+        | None => []
+        end
+    end.
+  Definition stream_log (ios : list (N * N)) : list item :=
+    flat_map (fun io => accepted_items (fst io) (unpack_out (snd io))) ios.
+
+End Delivered.
+
 (* the referee over a recorded interface trace (packed input word, packed output word per cycle) *)
 Fixpoint ref_accepts_io (mps ep sb : N) (r : ref_state) (ios : list (N * N)) : bool :=
   match ios with
